@@ -665,3 +665,6 @@ def explore(run, on_path=None, max_paths=4000):
 from . import lib_mat as _lib_mat      # 2-D arrays / object lists: models + havoc / clone support
 _lib_mat.install(sys.modules[__name__])
 from . import lib_fmt as _lib_fmt      # structured strings for number formatting
+from . import lib_calc as _lib_calc    # jacobian / quad / fsolve models
+from . import interp as _interp_mod
+_lib_calc.install(_interp_mod)
